@@ -8,6 +8,8 @@ mod bind;
 mod checks_a;
 mod checks_b;
 mod checks_c;
+mod checks_d;
+mod checks_e;
 mod e1;
 mod e3;
 mod e7;
@@ -40,6 +42,9 @@ fn main() {
 }
 
 fn real_main(args: Vec<String>) -> i32 {
+    if args[1] == "e7gen" {
+        return checks_e::e7gen();
+    }
     if args[1] == "replay" {
         return replay::replay_file(&args[2]);
     }
